@@ -111,13 +111,13 @@ fn c12_q_point_shx_fault_k() {
 fn c12_q_pointz_noshx_fault_k() {
     faults::<PointZ, 224>(&PT, &PT, false, 60);
 }
-// H: tier=thorough; unwind=34; sym=Polyline [2] twice; fault=k-th op (k symbolic in 0..=90) on .shp or .shx, one-shot or persistent; asserts=as above
+// H: tier=manual; unwind=34; sym=Polyline [2] twice; fault=k-th op (k symbolic in 0..=90) on .shp or .shx, one-shot or persistent; asserts=as above; note=not run: solver out of memory (14 GB) after 20 min for a two-record Polyline workload with an index and a symbolic failing operation
 #[kani::proof]
 #[kani::unwind(34)]
 fn c12_t_polyline_shx_fault_k() {
     faults::<Polyline, 320>(&PL2, &PL2, true, 90);
 }
-// H: tier=thorough; unwind=34; sym=PolylineZ [2] twice; fault=k-th op (k symbolic in 0..=120) on .shp or .shx, one-shot or persistent; asserts=as above
+// H: tier=manual; unwind=34; sym=PolylineZ [2] twice; fault=k-th op (k symbolic in 0..=120) on .shp or .shx, one-shot or persistent; asserts=as above; note=not run: solver out of memory (14 GB) after 20 min for a two-record Polyline workload with an index and a symbolic failing operation
 #[kani::proof]
 #[kani::unwind(34)]
 fn c12_t_polylinez_shx_fault_k() {
